@@ -1,6 +1,7 @@
 package main
 
 import (
+	"bytes"
 	"fmt"
 	"math/big"
 
@@ -221,7 +222,22 @@ func famDerGrammar(k *mon.Case) {
 		return intFromScalar(&pr).Cmp(a) == 0 && intFromScalar(&ps).Cmp(b) == 0
 	}
 	// strict parser: accept exactly the BIP66 encodings with r, s in [1, n-1]
-	dsig, derr := ecdsa.ParseDERSignature(raw)
+	// every parser gets its own copy of the input: it must leave it alone, and the signature it
+	// returns must not depend on the caller's buffer afterwards (the buffers are scrambled before
+	// the values are compared below)
+	bufD, bufL, bufB := append([]byte{}, raw...), append([]byte{}, raw...), append([]byte{}, raw...)
+	dsig, derr := ecdsa.ParseDERSignature(bufD)
+	lerr := ecdsa.VerifyLowS(bufL)
+	bsig, berr := ecdsa.ParseSignature(bufB)
+	for name, b := range map[string][]byte{"ParseDERSignature": bufD, "VerifyLowS": bufL, "ParseSignature": bufB} {
+		if !bytes.Equal(b, raw) {
+			k.Failf("aliasing:ecdsa."+name+":caller-input-modified:signature", "before=%x after=%x", raw, b)
+		}
+		scramble(b)
+	}
+	if d2, err2 := ecdsa.ParseDERSignature(raw); (err2 == nil) != (derr == nil) || (derr == nil && !d2.IsEqual(dsig)) {
+		k.Failf("der:ParseDERSignature:not-idempotent", "sig=%x", raw)
+	}
 	switch {
 	case derr == nil && !strict:
 		k.Failf("der:ParseDERSignature:accepts-"+cls, "sig=%x mutations=%v", raw, muts)
@@ -232,7 +248,7 @@ func famDerGrammar(k *mon.Case) {
 	}
 	// VerifyLowS = strict DER and s <= n/2
 	lowS := strict && ss.Cmp(halfN) <= 0
-	if lerr := ecdsa.VerifyLowS(raw); (lerr == nil) != lowS {
+	if (lerr == nil) != lowS {
 		if lerr == nil {
 			k.Failf("der:VerifyLowS:accepts-"+map[bool]string{true: "high-s", false: cls}[strict], "sig=%x", raw)
 		} else {
@@ -241,7 +257,6 @@ func famDerGrammar(k *mon.Case) {
 	}
 	// lax parser: must contain the strict language, and whatever it admits must carry the
 	// integers that Bitcoin Core's lax parser reads (then verification is on the right values)
-	bsig, berr := ecdsa.ParseSignature(raw)
 	switch {
 	case berr != nil && strict:
 		k.Failf("der:ParseSignature:rejects-canonical", "sig=%x err=%v", raw, berr)
